@@ -99,6 +99,10 @@ def t_isotropic_part(sess):
     c_iijj = sum((T[i, i, j, j] for i in range(3) for j in range(3)), R(0))
     c_ijij = sum((T[i, j, i, j] for i in range(3) for j in range(3)), R(0))
     sess.prove("K = C_iijj / 9 and G = (C_ijij - 3K)/10 (isotropic Voigt invariants)", p.pc, z3.And(eq(K * 9, c_iijj), eq(G * 10, c_ijij - 3 * K)))
+    dil = np.array([[sum((T[i, j, k, k] for k in range(3)), R(0)) for j in range(3)] for i in range(3)], dtype=object)
+    dev = np.array([[sum((T[i, k, j, k] for k in range(3)), R(0)) for j in range(3)] for i in range(3)], dtype=object)
+    sess.prove("the two contractions whose eigenvectors define the symmetry axes are d_ij = C_ijkk and v_ij = C_ikjk of the full tensor", p.pc,
+               z3.And(all_eq(loc["stiffness_dilat"], dil), all_eq(loc["stiffness_deviat"], dev)))
     rules = poly.Rules()
     for _, (arg, res) in sym_sqrt_apps(p):
         rules.square(R(res), R(arg))
@@ -238,3 +242,37 @@ def t_orthorhombic(sess, perm_d, perm_v, signs):
     if not reached:
         sess.reach.append(type("Q", (), {"name": f"{tag}: reach", "verdict": "unknown", "secs": 0.0})())
     sample(sess, obligation="orthorhombic decomposition", config=tag, paths=len(paths))
+
+
+def default_cex(name):
+    return {"replay": "vf.props.C12:replay_rotated", "case": {}, "cls": {"kind": "elastic decomposition wrong or frame dependent"}}
+
+
+def replay_rotated(case):
+    """Public API on the built-in tensors in rotated frames: K, G, anisotropy against numpy; orthorhombic identities."""
+    import numpy as np
+    import pydrex
+    from pydrex import minerals, tensors
+    from scipy.spatial.transform import Rotation
+
+    problems = []
+    st = minerals.StiffnessTensors()
+    for nm in ("olivine", "enstatite"):
+        C0 = getattr(st, nm)
+        ref = pydrex.elasticity_components(np.array([C0]))
+        T0 = tensors.voigt_to_elastic_tensor(C0)
+        for Q in Rotation.random(4, random_state=5).as_matrix():
+            C = tensors.elastic_tensor_to_voigt(tensors.rotate(T0, Q))
+            out = pydrex.elasticity_components(np.array([C]))
+            for key in ("bulk_modulus", "shear_modulus", "percent_anisotropy"):
+                if not np.isclose(out[key][0], ref[key][0], rtol=1e-9):
+                    problems.append(f"{nm}: {key} changes in a rotated frame")
+            if out["percent_monoclinic"][0] > 1e-6 or out["percent_triclinic"][0] > 1e-6:
+                problems.append(f"{nm}: rotated orthorhombic tensor reports monoclinic {out['percent_monoclinic'][0]:.3f}% / triclinic {out['percent_triclinic'][0]:.3f}%")
+            parts = sum(out[k][0] ** 2 for k in ("percent_hexagonal", "percent_tetragonal", "percent_orthorhombic", "percent_monoclinic", "percent_triclinic"))
+            if not np.isclose(parts, out["percent_anisotropy"][0] ** 2, rtol=1e-6):
+                problems.append(f"{nm}: squared class percentages do not add up to the squared anisotropy in a rotated frame")
+            ax, ax0 = out["hexagonal_axis"][0], ref["hexagonal_axis"][0]
+            if abs(abs(ax @ (Q @ ax0)) - 1) > 1e-6:
+                problems.append(f"{nm}: hexagonal axis does not co-rotate")
+    return {"reproduced": bool(problems), "detail": sorted(set(problems))[:5] or "decomposition correct and frame independent on the replay inputs"}
